@@ -34,7 +34,7 @@ def _sh(v, d):
 
 
 def random_table(rng, nmodels=None, shared_identities=True, altlocs=True, close_pairs=True, dup_names=True, hetatm=True,
-                 icodes=True, charges=True, null_occ=False, blank_chain=False, nchains=None, nres=None, wide=True, model_numbers=None):
+                 icodes=True, charges=True, null_occ=False, blank_chain=False, nchains=None, nres=None, wide=True, model_numbers=None, serial_start=None):
     """Residues are contiguous; models (if shared_identities) repeat the same
     residue identities with shifted coordinates, as NMR ensembles do."""
     nmodels = nmodels or rng.choice([1, 1, 1, 2, 3, 5])
@@ -44,7 +44,6 @@ def random_table(rng, nmodels=None, shared_identities=True, altlocs=True, close_
         chains[0] = " "
     template = []  # model-independent description
     used_keys = set()
-    serial = 0
     for ch in chains:
         num = rng.choice([-5, -1, 0, 1, 1, 1, 10, 995, 9990])
         for _ in range(nres or rng.randint(1, 5)):
@@ -74,7 +73,9 @@ def random_table(rng, nmodels=None, shared_identities=True, altlocs=True, close_
                 a = rng.choice(atoms)
                 other = rng.choice([n for n in ATOM_NAMES if all(n != x["name"] for x in atoms)])
                 d = rng.choice([0.2, 0.3, 0.7, 0.9])
-                atoms.append({"name": other, "alt": None, "xyz": [clamp(a["xyz"][0] - d) if a["xyz"][0] > 9000 else clamp(a["xyz"][0] + d), a["xyz"][1], a["xyz"][2]], "occ": rng.choice([0.0, 0.3, 0.5, 0.8, 1.0])})
+                atoms.append({"name": other, "alt": None, "xyz": [clamp(a["xyz"][0] - d) if a["xyz"][0] > 9000 else clamp(a["xyz"][0] + d), a["xyz"][1], a["xyz"][2]], "occ": rng.choice([0.0, 0.3, 0.5, 0.8, 1.0]),
+                              # the close neighbour may exist in some models only
+                              "only_models": (None if rng.random() < 0.5 else [k for k in range(1, nmodels + 1) if rng.random() < 0.5] or [1])})
                 if rng.random() < 0.3:
                     a["occ"] = rng.choice([0.0, 0.4, 1.0])
             if null_occ:
@@ -86,6 +87,7 @@ def random_table(rng, nmodels=None, shared_identities=True, altlocs=True, close_
                 num += rng.choice([1, 1, 1, 2, 7])
             if num > 9999:
                 break
+    serial = rng.choice([0, 0, 0, 9990, 99000]) if serial_start is None else serial_start
     rows = []
     # model numbers need not be 1..N (a selection from an ensemble keeps its numbers)
     numbering = rng.choice(["1..N", "1..N", "offset", "gaps"]) if model_numbers is None else model_numbers
@@ -102,9 +104,12 @@ def random_table(rng, nmodels=None, shared_identities=True, altlocs=True, close_
     for m in range(1, nmodels + 1):
         if not shared_identities and m > 1:
             break
-        shift = 0.0 if m == 1 else round(rng.uniform(0.6, 3.0), 3) * (1 if m % 2 else -1)
+        # NMR models may share coordinates for rigid parts: sometimes no shift at all
+        shift = 0.0 if (m == 1 or rng.random() < 0.3) else round(rng.uniform(0.6, 3.0), 3) * (1 if m % 2 else -1)
         for res in template:
             for a in res["atoms"]:
+                if a.get("only_models") is not None and m not in a["only_models"]:
+                    continue
                 serial += 1
                 rows.append({
                     "rec": res["rec"], "serial": serial, "name": a["name"], "alt": a["alt"], "resname": res["resname"], "chain": res["chain"],
